@@ -768,3 +768,48 @@ def q_r10_builders_keep_no_state(p: Project, rep: Report):
                 rep.check("Q-R10", f"{nm}:{tt[:40]}:{w.kind}", False, f"OFXClient.{nm} stores into the client ({tt} via {w.kind}): the next request composed by this client depends on this call - e.g. an account aggregate remembered under (bank id, account id) is reused for a request that names another account type", loc(p, w.stmt))
     if n == 0:
         rep.check("Q-R10", "OFXClient:methods-store-nothing-on-self", True, "", loc(p, ci.node))
+
+
+def q_r11_explicit_overrides_honoured(p: Project, rep: Report, only=None):
+    """an argument that is given - False, 0 - is not replaced by the configured value"""
+    rep.rule("Q-R11", "a per-call override of a client setting is replaced by the configured value only when it is None: for every bool / int parameter with default None (version, prettyprint, close_elements, ...) of an OFXClient method (private helpers included), the fall-back is written `if x is None` - never `x or self.x` / `x if x else self.x`, which also replace an explicit False (close_elements=False on a 2xx client then passes the must-close-all-tags guard and an SGML body goes out under an XML header) and an explicit 0 (version=0 is then sent as the client's own version instead of being refused)")
+    from .rules_client import client_class
+
+    ci = client_class(p)
+    n = 0
+    funcs = {f.name: f for f in ci.node.body if isinstance(f, (ast.FunctionDef, ast.AsyncFunctionDef))}
+    for nm, fn in sorted(funcs.items()):
+        a = fn.args
+        allp = a.posonlyargs + a.args + a.kwonlyargs
+        defaults = [None] * (len(a.posonlyargs + a.args) - len(a.defaults)) + list(a.defaults) + list(a.kw_defaults)
+        cand = {}
+        for arg, d in zip(allp, defaults):
+            ann = text(arg.annotation) if arg.annotation is not None else ""
+            if isinstance(d, ast.Constant) and d.value is None and ("bool" in ann or "int" in ann):
+                cand[arg.arg] = "bool" if "bool" in ann else "int"
+        if only is not None:
+            cand = {k: v for k, v in cand.items() if k in only}
+        if not cand:
+            continue
+        for x in ast.walk(fn):
+            hit = None
+            if isinstance(x, ast.BoolOp) and isinstance(x.op, ast.Or) and isinstance(x.values[0], ast.Name) and x.values[0].id in cand:
+                hit = x.values[0].id
+            elif isinstance(x, ast.IfExp) and isinstance(x.test, ast.Name) and x.test.id in cand:
+                hit = x.test.id
+            elif isinstance(x, ast.IfExp) and isinstance(x.test, ast.UnaryOp) and isinstance(x.test.op, ast.Not) and isinstance(x.test.operand, ast.Name) and x.test.operand.id in cand:
+                hit = x.test.operand.id
+            elif isinstance(x, ast.If) and isinstance(x.test, ast.UnaryOp) and isinstance(x.test.op, ast.Not) and isinstance(x.test.operand, ast.Name) and x.test.operand.id in cand and any(isinstance(s_, ast.Assign) and any(isinstance(t_, ast.Name) and t_.id == x.test.operand.id for t_ in s_.targets) for s_ in x.body):
+                hit = x.test.operand.id
+            if hit is None:
+                continue
+            # only a fall-back (the other operand is a configured value), not a plain truth test
+            other = text(x)
+            if "self." not in other:
+                continue
+            n += 1
+            kind = cand[hit]
+            rep.check("Q-R11", f"OFXClient.{nm}({hit}):override-replaced-only-when-None", False, f"OFXClient.{nm} falls back to the configured value with `{text(x)[:60]}`: an explicit {'False' if kind == 'bool' else '0'} for `{hit}` is replaced as if nothing had been passed" + (" - the per-call close_elements=False no longer reaches the `version >= 200 must close all tags` refusal, nor the writer" if hit == "close_elements" else (" - an out-of-range version given for one request is sent as the client's own version instead of being refused" if hit == "version" else "")), f"{p.module(ci.module).relpath}:{x.lineno}")
+    ncand = sum(1 for nm, fn in funcs.items() for arg in fn.args.args + fn.args.kwonlyargs if arg.annotation is not None and ("bool" in text(arg.annotation) or "int" in text(arg.annotation)))
+    rep.unit("bool_int_parameters", ncand)
+    rep.check("Q-R11", "OFXClient:overrides-replaced-only-when-None", True, "", f"{ncand} bool/int parameters of OFXClient methods")
